@@ -21,16 +21,28 @@ struct KK(i32, i32); // (key, expiration); ordered by key only
 impl PartialEq for KK { fn eq(&self, o: &Self) -> bool { self.0 == o.0 } }
 impl Eq for KK {}
 impl PartialOrd for KK { fn partial_cmp(&self, o: &Self) -> Option<Ordering> { Some(self.cmp(o)) } }
-impl Ord for KK { fn cmp(&self, o: &Self) -> Ordering { self.0.cmp(&o.0) } }
+// C20 observation: while an operation at time NOW runs, the ordering must only see the probe / new key (marked PROBE_EXP or
+// exempted by key) and stored keys that are still live (exp > NOW)
+const PROBE_EXP: i32 = i32::MAX;
+thread_local! { static NOW: std::cell::Cell<(i32, i32)> = std::cell::Cell::new((i32::MIN, i32::MIN)); static SAW_EXPIRED: std::cell::Cell<(i32, i32)> = std::cell::Cell::new((i32::MIN, 0)); }
+fn watch(now: i32, exempt_key: i32) { NOW.with(|n| n.set((now, exempt_key))); }
+fn unwatch() -> Option<(i32, i32)> { NOW.with(|n| n.set((i32::MIN, i32::MIN))); let v = SAW_EXPIRED.with(|s| s.replace((i32::MIN, 0))); if v.0 == i32::MIN { None } else { Some(v) } }
+fn observe(x: &KK) { NOW.with(|n| { let (now, ex) = n.get(); if now != i32::MIN && x.1 != PROBE_EXP && x.0 != ex && x.1 <= now { SAW_EXPIRED.with(|s| s.set((x.0, x.1))); } }); }
+impl Ord for KK { fn cmp(&self, o: &Self) -> Ordering { cb_fuse(); observe(self); observe(o); self.0.cmp(&o.0) } }
 // fault injection: when armed, the n-th call of the expiration accessor panics (C18)
 thread_local! { static FUSE: std::cell::Cell<i64> = std::cell::Cell::new(-1); }
 fn arm(n: i64) { FUSE.with(|f| f.set(n)); }
 impl ExpiredKey<i32> for KK {
     fn expiration(&self) -> i32 {
         FUSE.with(|f| { let v = f.get(); if v == 0 { f.set(-1); panic!("injected panic in expiration()"); } if v > 0 { f.set(v - 1); } });
+        cb_fuse();
         self.1
     }
 }
+// second fuse: counts every user callback (ordering, key accessor, expiration accessor) - panic-injection exploration (C18)
+thread_local! { static CBFUSE: std::cell::Cell<i64> = std::cell::Cell::new(-1); }
+fn cb_arm(n: i64) { CBFUSE.with(|f| f.set(n)); }
+fn cb_fuse() { CBFUSE.with(|f| { let v = f.get(); if v == 0 { f.set(-1); panic!("injected panic in a user callback"); } if v > 0 { f.set(v - 1); } }); }
 
 // ---------------------------------------------------------------------------------------------------------------
 // bounded stand-in: KeyExpList::clear_expired against its contract
@@ -269,31 +281,40 @@ fn explore_key(seed: u64, steps: usize, nkeys: i32) -> Result<(), String> {
                 let e = time + rng.below(5) as i32;
                 vseq += 1;
                 h!(hist, "insert(k={},exp={},val={},t={}); ", k, e, vseq, time);
-                t.insert(KK(k, e), vseq, time); l.insert(KK(k, e), vseq, time);
+                watch(time, k);
+                t.insert(KK(k, e), vseq, time);
+                if let Some(x) = unwatch() { return Err(format!("[C20] {}-> the tree handed the expired key ({},exp {}) to the ordering at time {}", hist, x.0, x.1, time)); }
+                watch(time, k);
+                l.insert(KK(k, e), vseq, time);
+                if let Some(x) = unwatch() { return Err(format!("[C20] {}-> the list handed the expired key ({},exp {}) to the ordering at time {}", hist, x.0, x.1, time)); }
                 model.retain(|x| !(x.0 == k)); // an expired equal key is superseded
                 model.push((k, e, vseq));
             }
             4 | 5 => {
                 let want = lv.iter().filter(|e| e.0 < k).last().map(|e| e.2).unwrap_or(-1);
                 h!(hist, "first_less(t={},k={}); ", time, k);
-                let a = t.first_less(time, -1, KK(k, 0)); let b = l.first_less(time, -1, KK(k, 0));
+                watch(time, i32::MIN); let a = t.first_less(time, -1, KK(k, PROBE_EXP)); if let Some(x) = unwatch() { return Err(format!("[C20] {}-> the tree handed the expired key ({},exp {}) to the ordering at time {}", hist, x.0, x.1, time)); }
+                watch(time, i32::MIN); let b = l.first_less(time, -1, KK(k, PROBE_EXP)); if let Some(x) = unwatch() { return Err(format!("[C20] {}-> the list handed the expired key ({},exp {}) to the ordering at time {}", hist, x.0, x.1, time)); }
                 if a != want { return Err(format!("[C01] {}-> tree {} expected {}", hist, a, want)); }
                 if b != want { return Err(format!("[C13] {}-> list {} expected {}", hist, b, want)); }
             }
             6 | 7 => {
                 let want = lv.iter().filter(|e| e.0 <= k).last().map(|e| e.2).unwrap_or(-1);
                 h!(hist, "first_less_or_equal(t={},k={}); ", time, k);
-                let a = t.first_less_or_equal(time, -1, KK(k, 0)); let b = l.first_less_or_equal(time, -1, KK(k, 0));
+                watch(time, i32::MIN); let a = t.first_less_or_equal(time, -1, KK(k, PROBE_EXP)); if let Some(x) = unwatch() { return Err(format!("[C20] {}-> the tree handed the expired key ({},exp {}) to the ordering at time {}", hist, x.0, x.1, time)); }
+                watch(time, i32::MIN); let b = l.first_less_or_equal(time, -1, KK(k, PROBE_EXP)); if let Some(x) = unwatch() { return Err(format!("[C20] {}-> the list handed the expired key ({},exp {}) to the ordering at time {}", hist, x.0, x.1, time)); }
                 if a != want { return Err(format!("[C01] {}-> tree {} expected {}", hist, a, want)); }
                 if b != want { return Err(format!("[C13] {}-> list {} expected {}", hist, b, want)); }
-                let a2 = t.first_less_or_equal_by(time, -1, |x: KK| { x.0.cmp(&k) }); let b2 = l.first_less_or_equal_by(time, -1, |x: KK| x.0.cmp(&k));
+                watch(time, i32::MIN); let a2 = t.first_less_or_equal_by(time, -1, |x: KK| { observe(&x); x.0.cmp(&k) }); if let Some(x) = unwatch() { return Err(format!("[C20] {}-> the tree handed the expired key ({},exp {}) to the comparator at time {}", hist, x.0, x.1, time)); }
+                watch(time, i32::MIN); let b2 = l.first_less_or_equal_by(time, -1, |x: KK| { observe(&x); x.0.cmp(&k) }); if let Some(x) = unwatch() { return Err(format!("[C20] {}-> the list handed the expired key ({},exp {}) to the comparator at time {}", hist, x.0, x.1, time)); }
                 if a2 != want { return Err(format!("[C01] {}-> tree first_less_or_equal_by {} expected {}", hist, a2, want)); }
                 if b2 != want { return Err(format!("[C13] {}-> list first_less_or_equal_by {} expected {}", hist, b2, want)); }
             }
             8 | 9 => {
                 let want = lv.iter().find(|e| e.0 == k).map(|e| e.2);
                 h!(hist, "get_value(t={},k={}); ", time, k);
-                let a = t.get_value(time, KK(k, 0)); let b = l.get_value(time, KK(k, 0));
+                watch(time, i32::MIN); let a = t.get_value(time, KK(k, PROBE_EXP)); if let Some(x) = unwatch() { return Err(format!("[C20] {}-> the tree handed the expired key ({},exp {}) to the ordering at time {}", hist, x.0, x.1, time)); }
+                watch(time, i32::MIN); let b = l.get_value(time, KK(k, PROBE_EXP)); if let Some(x) = unwatch() { return Err(format!("[C20] {}-> the list handed the expired key ({},exp {}) to the ordering at time {}", hist, x.0, x.1, time)); }
                 if a != want { return Err(format!("[C06] {}-> tree {:?} expected {:?}", hist, a, want)); }
                 if b != want { return Err(format!("[C13] {}-> list {:?} expected {:?}", hist, b, want)); }
             }
@@ -321,7 +342,7 @@ fn explore_key(seed: u64, steps: usize, nkeys: i32) -> Result<(), String> {
     let a = t.into_ordered_vec(time); let b = l.into_ordered_vec(time);
     if a != want { return Err(format!("[C07] {}-> tree {:?} expected {:?}", hist, a, want)); }
     if b != want { return Err(format!("[C07,C13] {}-> list {:?} expected {:?}", hist, b, want)); }
-    if a.capacity() > 2 * a.len().max(model.len()) + 64 { return Err(format!("[C19] {}-> export capacity {} for {} entries", hist, a.capacity(), model.len())); }
+    if a.capacity() > 2 * model.len() + 8 { return Err(format!("[C19] {}-> export capacity {} for {} entries", hist, a.capacity(), model.len())); }
     if let Some(m) = inv_fail { return Err(m); }
     Ok(())
 }
@@ -500,7 +521,7 @@ fn explore_seg(seed: u64, steps: usize) -> Result<(), String> {
                 let mut got: Vec<i32> = if partial { t.iter_by_range(SegRange { min: qa, max: qb }, time).take(1).map(|v| v.id).collect() } else { t.iter_by_range(SegRange { min: qa, max: qb }, time).map(|v| v.id).collect() };
                 got.sort();
                 if partial { if got.iter().any(|g| !want.contains(g)) || (got.is_empty() && !want.is_empty()) { return Err(format!("[C03] {}-> partial {:?} expected one of {:?}", hist, got, want)); } }
-                else if got != want { return Err(format!("[C03] {}-> {:?} expected {:?}", hist, got, want)); }
+                else if got != want { return Err(format!("[C03{}] {}-> {:?} expected {:?}", if hist.contains("clear(); ") { ",C12" } else { "" }, hist, got, want)); }
                 if whole {
                     // C16: after a fully consumed whole-domain query only copies of unexpired values are stored
                     for c in t.chunks.iter() { for e in c.buffer.iter() { if e.val.exp < time { return Err(format!("[C16] {}-> an expired copy (id {}, exp {}) is still stored", hist, e.val.id, e.val.exp)); } } }
@@ -537,6 +558,305 @@ fn explore(which: &str, seeds: u64, steps: usize) -> Result<u64, String> {
     }
     if let Some(e) = first_inv { return Err(e); }
     Ok(seeds)
+}
+
+// ---------------------------------------------------------------------------------------------
+// C18: panic injection.  For every history (a deterministic script of in-contract operations) and every operation of it, a
+// panic is injected at every index of the user callbacks that operation makes (ordering, comparator closure, key accessor,
+// expiration accessor).  After catch_unwind the collection must be structurally valid, its observable contents must be
+// those before or those after the operation, and the rest of the history must run on it as on a twin that never panicked.
+#[derive(Clone, Copy, Debug, Default)]
+struct FK(i32);
+impl PartialEq for FK { fn eq(&self, o: &Self) -> bool { self.0 == o.0 } }
+impl Eq for FK {}
+impl PartialOrd for FK { fn partial_cmp(&self, o: &Self) -> Option<Ordering> { Some(self.cmp(o)) } }
+impl Ord for FK { fn cmp(&self, o: &Self) -> Ordering { cb_fuse(); self.0.cmp(&o.0) } }
+#[derive(Clone, Copy, Default, Debug, PartialEq)]
+struct FV { k: FK, payload: i32 }
+impl i_tree::set::sort::KeyValue<FK> for FV { fn key(&self) -> &FK { cb_fuse(); &self.k } }
+#[derive(Clone, Copy, Debug)]
+struct FX { id: i32, exp: i32 }
+impl i_tree::ExpiredVal<i32> for FX { fn expiration(&self) -> i32 { cb_fuse(); self.exp } }
+
+#[derive(Clone, Copy, Debug)]
+enum POp { Ins(i32, i32, i32), Del(i32), Get(i32), Less(i32), LessEq(i32), LessBy(i32), DelAt(i32), Clear, Query(i32, i32, bool) }
+
+trait Subject: Sized {
+    const NAME: &'static str;
+    const EXPIRING: bool;
+    fn fresh(seed: u64) -> Self;
+    fn apply(&mut self, op: &POp, time: i32);
+    fn valid(&self) -> Result<(), String>;
+    // observable contents at `time` (callbacks disarmed): (key, value) in key order
+    fn contents(&mut self, time: i32, nkeys: i32) -> Vec<(i32, i32)>;
+}
+
+fn rb_wf<N>(b: &[N], root: u32, unused: &[u32], links: &dyn Fn(&N) -> (u32, u32, u32, bool), key: &dyn Fn(&N) -> i64) -> Result<(), String> {
+    wf_exec(b.len(), root, unused, &|i| links(&b[i as usize]), &|i| key(&b[i as usize])).map(|_| ())
+}
+
+struct PKeyTree(KeyExpTree<KK, i32, i32>);
+impl Subject for PKeyTree {
+    const NAME: &'static str = "KeyExpTree"; const EXPIRING: bool = true;
+    fn fresh(seed: u64) -> Self { PKeyTree(KeyExpTree::new(if seed % 3 == 0 { 0 } else { 5 })) }
+    fn apply(&mut self, op: &POp, time: i32) {
+        match *op {
+            POp::Ins(k, e, v) => self.0.insert(KK(k, e), v, time),
+            POp::Get(k) => { self.0.get_value(time, KK(k, PROBE_EXP)); }
+            POp::Less(k) => { self.0.first_less(time, -1, KK(k, PROBE_EXP)); }
+            POp::LessEq(k) => { self.0.first_less_or_equal(time, -1, KK(k, PROBE_EXP)); }
+            POp::LessBy(k) => { self.0.first_less_or_equal_by(time, -1, |x: KK| { cb_fuse(); x.0.cmp(&k) }); }
+            POp::Clear => self.0.clear(),
+            _ => {}
+        }
+    }
+    fn valid(&self) -> Result<(), String> { key_tree_wf(&self.0).map(|_| ()) }
+    fn contents(&mut self, time: i32, nkeys: i32) -> Vec<(i32, i32)> { (0..nkeys).filter_map(|k| self.0.get_value(time, KK(k, PROBE_EXP)).map(|v| (k, v))).collect() }
+}
+struct PKeyList(KeyExpList<KK, i32, i32>);
+impl Subject for PKeyList {
+    const NAME: &'static str = "KeyExpList"; const EXPIRING: bool = true;
+    fn fresh(_: u64) -> Self { PKeyList(KeyExpList::new(0)) }
+    fn apply(&mut self, op: &POp, time: i32) {
+        match *op {
+            POp::Ins(k, e, v) => self.0.insert(KK(k, e), v, time),
+            POp::Get(k) => { self.0.get_value(time, KK(k, PROBE_EXP)); }
+            POp::Less(k) => { self.0.first_less(time, -1, KK(k, PROBE_EXP)); }
+            POp::LessEq(k) => { self.0.first_less_or_equal(time, -1, KK(k, PROBE_EXP)); }
+            POp::LessBy(k) => { self.0.first_less_or_equal_by(time, -1, |x: KK| { cb_fuse(); x.0.cmp(&k) }); }
+            POp::Clear => self.0.clear(),
+            _ => {}
+        }
+    }
+    fn valid(&self) -> Result<(), String> {
+        let b = &self.0.buffer;
+        for w in b.windows(2) { if w[0].key.0 >= w[1].key.0 { return Err(format!("buffer not strictly ascending by key: {} then {}", w[0].key.0, w[1].key.0)); } }
+        for e in b.iter() { if e.key.1 < self.0.min_exp { return Err(format!("cached minimum {} above the stored expiration {}", self.0.min_exp, e.key.1)); } }
+        Ok(())
+    }
+    fn contents(&mut self, time: i32, nkeys: i32) -> Vec<(i32, i32)> { (0..nkeys).filter_map(|k| self.0.get_value(time, KK(k, PROBE_EXP)).map(|v| (k, v))).collect() }
+}
+struct PMapTree(MapTree<FK, i32>);
+impl Subject for PMapTree {
+    const NAME: &'static str = "MapTree"; const EXPIRING: bool = false;
+    fn fresh(seed: u64) -> Self { PMapTree(MapTree::new(if seed % 3 == 0 { 0 } else { 5 })) }
+    fn apply(&mut self, op: &POp, _: i32) {
+        match *op {
+            POp::Ins(k, _, v) => self.0.insert(FK(k), v),
+            POp::Del(k) => self.0.delete(FK(k)),
+            POp::Get(k) => { self.0.get_value(FK(k)); }
+            POp::Less(k) | POp::LessEq(k) => { self.0.first_index_less(FK(k)); }
+            POp::LessBy(k) => { self.0.first_index_less_by(|x: FK| { cb_fuse(); x.0.cmp(&k) }); }
+            POp::DelAt(k) => { let h = self.0.first_index_less(FK(k)); if h != EMPTY_REF { self.0.delete_by_index(h); } }
+            POp::Clear => self.0.clear(),
+            _ => {}
+        }
+    }
+    fn valid(&self) -> Result<(), String> {
+        use i_tree::map::node::Color;
+        rb_wf(&self.0.store.buffer, self.0.root, &self.0.store.unused, &|n| (n.parent, n.left, n.right, n.color == Color::Red), &|n| n.entity.key.0 as i64)
+    }
+    fn contents(&mut self, _: i32, nkeys: i32) -> Vec<(i32, i32)> { (0..nkeys).filter_map(|k| self.0.get_value(FK(k)).map(|v| (k, *v))).collect() }
+}
+struct PMapList(i_tree::map::list::MapList<FK, i32>);
+impl Subject for PMapList {
+    const NAME: &'static str = "MapList"; const EXPIRING: bool = false;
+    fn fresh(_: u64) -> Self { PMapList(i_tree::map::list::MapList::new(0)) }
+    fn apply(&mut self, op: &POp, _: i32) {
+        match *op {
+            POp::Ins(k, _, v) => self.0.insert(FK(k), v),
+            POp::Del(k) => self.0.delete(FK(k)),
+            POp::Get(k) => { self.0.get_value(FK(k)); }
+            POp::Less(k) | POp::LessEq(k) => { self.0.first_index_less(FK(k)); }
+            POp::LessBy(k) => { self.0.first_index_less_by(|x: FK| { cb_fuse(); x.0.cmp(&k) }); }
+            POp::DelAt(k) => { let h = self.0.first_index_less(FK(k)); if h != EMPTY_REF { self.0.delete_by_index(h); } }
+            POp::Clear => self.0.clear(),
+            _ => {}
+        }
+    }
+    fn valid(&self) -> Result<(), String> {
+        for w in self.0.buffer.windows(2) { if w[0].key.0 >= w[1].key.0 { return Err(format!("buffer not strictly ascending by key: {} then {}", w[0].key.0, w[1].key.0)); } }
+        Ok(())
+    }
+    fn contents(&mut self, _: i32, nkeys: i32) -> Vec<(i32, i32)> { (0..nkeys).filter_map(|k| self.0.get_value(FK(k)).map(|v| (k, *v))).collect() }
+}
+struct PSetTree(SetTree<FK, FV>);
+impl Subject for PSetTree {
+    const NAME: &'static str = "SetTree"; const EXPIRING: bool = false;
+    fn fresh(seed: u64) -> Self { PSetTree(SetTree::new(if seed % 3 == 0 { 0 } else { 5 })) }
+    fn apply(&mut self, op: &POp, _: i32) {
+        match *op {
+            POp::Ins(k, _, v) => self.0.insert(FV { k: FK(k), payload: v }),
+            POp::Del(k) => self.0.delete(&FK(k)),
+            POp::Get(k) => { self.0.get_value(&FK(k)); }
+            POp::Less(k) | POp::LessEq(k) => { self.0.first_index_less(&FK(k)); }
+            POp::LessBy(k) => { self.0.first_index_less_by(|x: &FK| { cb_fuse(); x.0.cmp(&k) }); }
+            POp::DelAt(k) => { let h = self.0.first_index_less(&FK(k)); if h != EMPTY_REF { self.0.delete_by_index(h); } }
+            POp::Clear => self.0.clear(),
+            _ => {}
+        }
+    }
+    fn valid(&self) -> Result<(), String> {
+        use i_tree::set::node::Color;
+        rb_wf(&self.0.store.buffer, self.0.root, &self.0.store.unused, &|n| (n.parent, n.left, n.right, n.color == Color::Red), &|n| n.value.k.0 as i64)
+    }
+    fn contents(&mut self, _: i32, nkeys: i32) -> Vec<(i32, i32)> { (0..nkeys).filter_map(|k| self.0.get_value(&FK(k)).map(|v| (k, v.payload))).collect() }
+}
+struct PSetList(SetList<FV>);
+impl Subject for PSetList {
+    const NAME: &'static str = "SetList"; const EXPIRING: bool = false;
+    fn fresh(_: u64) -> Self { PSetList(SetList::new(0)) }
+    fn apply(&mut self, op: &POp, _: i32) {
+        match *op {
+            POp::Ins(k, _, v) => SetCollection::<FK, FV>::insert(&mut self.0, FV { k: FK(k), payload: v }),
+            POp::Del(k) => SetCollection::<FK, FV>::delete(&mut self.0, &FK(k)),
+            POp::Get(k) => { SetCollection::<FK, FV>::get_value(&self.0, &FK(k)); }
+            POp::Less(k) | POp::LessEq(k) => { SetCollection::<FK, FV>::first_index_less(&self.0, &FK(k)); }
+            POp::LessBy(k) => { SetCollection::<FK, FV>::first_index_less_by(&self.0, |x: &FK| { cb_fuse(); x.0.cmp(&k) }); }
+            POp::DelAt(k) => { let h = SetCollection::<FK, FV>::first_index_less(&self.0, &FK(k)); if h != EMPTY_REF { SetCollection::<FK, FV>::delete_by_index(&mut self.0, h); } }
+            POp::Clear => SetCollection::<FK, FV>::clear(&mut self.0),
+            _ => {}
+        }
+    }
+    fn valid(&self) -> Result<(), String> {
+        for w in self.0.buffer.windows(2) { if w[0].k.0 >= w[1].k.0 { return Err(format!("buffer not strictly ascending by key: {} then {}", w[0].k.0, w[1].k.0)); } }
+        Ok(())
+    }
+    fn contents(&mut self, _: i32, nkeys: i32) -> Vec<(i32, i32)> { (0..nkeys).filter_map(|k| SetCollection::<FK, FV>::get_value(&self.0, &FK(k)).map(|v| (k, v.payload))).collect() }
+}
+struct PSeg(i_tree::seg::tree::SegExpTree<i32, i32, FX>);
+impl Subject for PSeg {
+    const NAME: &'static str = "SegExpTree"; const EXPIRING: bool = true;
+    fn fresh(_: u64) -> Self { PSeg(i_tree::seg::tree::SegExpTree::new(i_tree::seg::exp::SegRange { min: 0, max: 63 }).unwrap()) }
+    fn apply(&mut self, op: &POp, time: i32) {
+        use i_tree::seg::exp::{SegExpCollection, SegRange};
+        match *op {
+            POp::Ins(k, e, v) => self.0.insert_by_range(SegRange { min: k, max: (k + (v % 23)).min(63) }, FX { id: v, exp: e }),
+            POp::Query(a, b, partial) => { if partial { let _ = self.0.iter_by_range(SegRange { min: a, max: b }, time).take(1).count(); } else { let _ = self.0.iter_by_range(SegRange { min: a, max: b }, time).count(); } }
+            POp::Clear => self.0.clear(),
+            _ => {}
+        }
+    }
+    fn valid(&self) -> Result<(), String> {
+        for (ci, c) in self.0.chunks.iter().enumerate() { for e in c.buffer.iter() { if (e.mask >> ci) & 1 != 1 { return Err(format!("chunk {} holds a copy whose mask lacks bit {}", ci, ci)); } } }
+        Ok(())
+    }
+    // (id, number of range buckets the live value is reported in) per live value, over every single-bucket query
+    fn contents(&mut self, time: i32, _: i32) -> Vec<(i32, i32)> {
+        use i_tree::seg::exp::{SegExpCollection, SegRange};
+        let mut m = std::collections::BTreeMap::<i32, i32>::new();
+        for b in 0..32 { for v in self.0.iter_by_range(SegRange { min: 2 * b, max: 2 * b + 1 }, time) { *m.entry(v.id).or_insert(0) += 1; } }
+        m.into_iter().collect()
+    }
+}
+
+fn gen_script(seed: u64, steps: usize, nkeys: i32, expiring: bool, seg: bool) -> Vec<(POp, i32)> {
+    let mut rng = Rng(seed.wrapping_mul(0x9E3779B97F4A7C15) | 1);
+    let mut model: Vec<(i32, i32)> = vec![]; // (key, exp)
+    let mut time = 0i32; let mut vseq = 100;
+    let mut out = vec![];
+    while out.len() < steps {
+        if expiring && rng.below(3) == 0 { time += rng.below(3) as i32; }
+        let k = rng.below(nkeys as u64) as i32;
+        let op = rng.below(12);
+        if seg {
+            let a = rng.below(64) as i32; let b = rng.below(64) as i32; let (a, b) = if a <= b { (a, b) } else { (b, a) };
+            match op {
+                0..=4 => { vseq += 1; out.push((POp::Ins(a, time + rng.below(5) as i32 - 1, vseq), time)); }
+                5..=9 => out.push((POp::Query(a, b, op == 9), time)),
+                10 => out.push((POp::Query(0, 63, false), time)),
+                _ => { if rng.below(4) == 0 { out.push((POp::Clear, time)); } }
+            }
+            continue;
+        }
+        match op {
+            0..=4 => {
+                if model.iter().any(|e| e.0 == k && (!expiring || e.1 > time)) { continue; }
+                let e = if expiring { time + rng.below(5) as i32 } else { i32::MAX };
+                vseq += 1; model.retain(|m| m.0 != k); model.push((k, e));
+                out.push((POp::Ins(k, e, vseq), time));
+            }
+            5 => { if expiring { out.push((POp::Get(k), time)); } else { model.retain(|m| m.0 != k); out.push((POp::Del(k), time)); } }
+            6 => out.push((POp::Get(k), time)),
+            7 => out.push((POp::Less(k), time)),
+            8 => out.push((POp::LessEq(k), time)),
+            9 => out.push((POp::LessBy(k), time)),
+            10 => { if expiring { out.push((POp::LessEq(k), time)); } else { if let Some(w) = model.iter().filter(|m| m.0 <= k).map(|m| m.0).max() { model.retain(|m| m.0 != w); } out.push((POp::DelAt(k), time)); } }
+            _ => { if rng.below(5) == 0 { model.clear(); out.push((POp::Clear, time)); } }
+        }
+    }
+    out
+}
+
+thread_local! { static LASTPANIC: std::cell::RefCell<String> = std::cell::RefCell::new(String::new()); }
+
+fn guarded<S: Subject>(s: &mut S, op: &POp, time: i32) -> Result<(), String> {
+    std::panic::catch_unwind(std::panic::AssertUnwindSafe(|| s.apply(op, time))).map_err(|_| LASTPANIC.with(|l| l.borrow().clone()))
+}
+
+fn panic_history<S: Subject>(seed: u64, steps: usize, nkeys: i32) -> Result<u64, String> {
+    let script = gen_script(seed, steps, nkeys, S::EXPIRING, S::NAME == "SegExpTree");
+    let mut injections = 0u64;
+    let show = |upto: usize| -> String { let mut h = format!("{} seed {}: ", S::NAME, seed); for (o, t) in script[..upto].iter() { h.push_str(&format!("{:?}@t{}; ", o, t)); } h };
+    for i in 0..script.len() {
+        let (op, time) = script[i];
+        // twin that never panics: contents before and after operation i, and the number of callbacks it makes
+        let mut twin = S::fresh(seed);
+        for (o, t) in script[..i].iter() { twin.apply(o, *t); }
+        let mut twin_b = S::fresh(seed);
+        for (o, t) in script[..i].iter() { twin_b.apply(o, *t); }
+        let before = twin_b.contents(time, nkeys);
+        cb_arm(1 << 40); twin.apply(&op, time); let n = (1i64 << 40) - CBFUSE.with(|f| f.get()); cb_arm(-1);
+        let after = twin.contents(time, nkeys);
+        for j in 0..n {
+            let mut s = S::fresh(seed);
+            for (o, t) in script[..i].iter() { s.apply(o, *t); }
+            note(&format!("{}then {:?}@t{} with a panic injected at callback #{}", show(i), op, time, j));
+            cb_arm(j);
+            let r = std::panic::catch_unwind(std::panic::AssertUnwindSafe(|| s.apply(&op, time)));
+            cb_arm(-1);
+            if r.is_ok() { continue; } // the operation made fewer callbacks on this run (cannot happen: deterministic)
+            let lp = LASTPANIC.with(|l| l.borrow().clone());
+            if !lp.contains("injected panic") { return Err(format!("[C18,C10] {}then {:?}@t{} with a panic injected at callback #{} -> the real code panicked by itself: {}", show(i), op, time, j, lp)); }
+            injections += 1;
+            let ctx = format!("{}then {:?}@t{} with a panic injected at callback #{} of {}", show(i), op, time, j, n);
+            if let Err(e) = s.valid() { return Err(format!("[C18] {} -> after catch_unwind the collection is not valid: {}", ctx, e)); }
+            let c = match std::panic::catch_unwind(std::panic::AssertUnwindSafe(|| s.contents(time, nkeys))) { Ok(c) => c, Err(_) => return Err(format!("[C18] {} -> reading the collection after catch_unwind panicked: {}", ctx, LASTPANIC.with(|l| l.borrow().clone()))) };
+            let resume = if c == after { i + 1 } else if c == before { i } else { return Err(format!("[C18] {} -> torn update: contents {:?}, before the operation {:?}, after it {:?}", ctx, c, before, after)); };
+            if let Err(e) = s.valid() { return Err(format!("[C18] {} -> after catch_unwind and a read the collection is not valid: {}", ctx, e)); }
+            // the rest of the history runs as on the twin
+            let mut t2 = S::fresh(seed);
+            for (o, t) in script[..i + 1].iter() { t2.apply(o, *t); }
+            let mut last_t = time;
+            for (q, (o, t)) in script.iter().enumerate().skip(resume) {
+                if let Err(p) = guarded(&mut s, o, *t) { return Err(format!("[C18] {} -> continuing with {:?}@t{} the real code panicked: {}", ctx, o, t, p)); }
+                if q > i { t2.apply(o, *t); }
+                if let Err(e) = s.valid() { return Err(format!("[C18] {} -> continuing with {:?}@t{}: the collection is not valid: {}", ctx, o, t, e)); }
+                last_t = *t;
+            }
+            let (c1, c2) = (match std::panic::catch_unwind(std::panic::AssertUnwindSafe(|| s.contents(last_t, nkeys))) { Ok(c) => c, Err(_) => return Err(format!("[C18] {} -> reading the collection at the end of the history panicked", ctx)) }, t2.contents(last_t, nkeys));
+            if c1 != c2 { return Err(format!("[C18] {} -> at the end of the history the contents are {:?}, on a collection that never saw the panic {:?}", ctx, c1, c2)); }
+        }
+    }
+    Ok(injections)
+}
+
+fn explore_panic(which: &str, seeds: u64, steps: usize) -> Result<(u64, u64), String> {
+    let mut inj = 0u64;
+    for seed in 1..=seeds {
+        let nkeys = if seed % 4 == 0 { 24 } else { 7 };
+        inj += match which {
+            "key-tree" => panic_history::<PKeyTree>(seed, steps, nkeys),
+            "key-list" => panic_history::<PKeyList>(seed, steps, nkeys),
+            "map-tree" => panic_history::<PMapTree>(seed, steps, nkeys),
+            "map-list" => panic_history::<PMapList>(seed, steps, nkeys),
+            "set-tree" => panic_history::<PSetTree>(seed, steps, nkeys),
+            "set-list" => panic_history::<PSetList>(seed, steps, nkeys),
+            "seg" => panic_history::<PSeg>(seed, steps, nkeys),
+            _ => Err("unknown collection".to_string()),
+        }?;
+    }
+    Ok((seeds, inj))
 }
 
 fn main() {
@@ -580,6 +900,23 @@ fn main() {
                 Ok(Err(e)) => { println!("{{\"ok\": false, \"counterexample\": {:?}}}", e); std::process::exit(1); }
                 Err(_) => { std::process::exit(1); }
             }
+        }
+        Some("explore-panic") => {
+            let seeds: u64 = args[3].parse().unwrap();
+            let steps: usize = args[4].parse().unwrap();
+            std::panic::set_hook(Box::new(|info| { let m = format!("{}", info).replace('\n', " "); LASTPANIC.with(|l| *l.borrow_mut() = m); }));
+            let which = args[2].clone();
+            let all = ["key-tree", "key-list", "map-tree", "map-list", "set-tree", "set-list", "seg"];
+            let list: Vec<&str> = if which == "all" { all.to_vec() } else { vec![which.as_str()] };
+            let mut total = (0u64, 0u64);
+            for w in list {
+                match std::panic::catch_unwind(|| explore_panic(w, seeds, steps)) {
+                    Ok(Ok((h, i))) => { total.0 += h; total.1 += i; }
+                    Ok(Err(e)) => { println!("{{\"ok\": false, \"counterexample\": {:?}}}", e); std::process::exit(1); }
+                    Err(_) => { let h = HIST.lock().map(|g| g.clone()).unwrap_or_default(); println!("{{\"ok\": false, \"counterexample\": {:?}}}", format!("[C18] {} -> the real code panicked outside the injected callback: {}", h, LASTPANIC.with(|l| l.borrow().clone()))); std::process::exit(1); }
+                }
+            }
+            println!("{{\"ok\": true, \"histories\": {}, \"injections\": {}}}", total.0, total.1);
         }
         Some("finding") => {
             match finding(&args[2]) {
